@@ -33,10 +33,25 @@ type Cookie struct {
 	Email  string `json:"email"`
 	RT     bool   `json:"rt"`
 	Tok    string `json:"tok"`
+	Grp    string `json:"grp"` // in | out: the session's recorded groups contain one of the upstream's allowed groups ("in" when it has no group rule)
 }
 
 // NoCookie is the abstract "browser holds nothing".
-var NoCookie = Cookie{Kind: "none", Life: -1, Ref: -1, Val: -1, Grace: -1, Email: "empty", Tok: "none"}
+var NoCookie = Cookie{Kind: "none", Life: -1, Ref: -1, Val: -1, Grace: -1, Email: "empty", Tok: "none", Grp: "in"}
+
+// garbageCookie is the abstract "a value under the session cookie's name that does not open".
+var garbageCookie = Cookie{Kind: "garbage", Life: -1, Ref: -1, Val: -1, Grace: -1, Email: "empty", Tok: "none", Grp: "in"}
+
+// groupsOf says which allowed group the upstream behind host asks for ("" = it has no group rule).
+func groupsOf(host string) string {
+	switch host {
+	case hostGroup, hostBoth:
+		return allowedGroup
+	case hostGroup2:
+		return allowedGroup2
+	}
+	return ""
+}
 
 // Policy is the abstract upstream policy.
 type Policy struct {
@@ -225,6 +240,15 @@ func ClassifyEmail(e string) string {
 // Session builds a concrete session for an abstract cookie of kind "sess".
 func Session(c Cookie, host string, now time.Time, r *rand.Rand) *sessions.SessionState {
 	s := &sessions.SessionState{ProviderType: "sso", AccessToken: "at-old", Groups: []string{allowedGroup}}
+	if g := groupsOf(host); g != "" {
+		if c.Grp == "out" {
+			s.Groups = [][]string{{}, nil, {"other"}, {strings.ToUpper(g)}, {g + " "}, {"x" + g, g + "x"}}[r.Intn(6)]
+		} else {
+			s.Groups = [][]string{{g}, {"a", g, "z"}}[r.Intn(2)]
+		}
+	} else if r.Intn(2) == 0 {
+		s.Groups = [][]string{{}, nil, {"other"}}[r.Intn(3)]
+	}
 	if c.SlugOk {
 		s.ProviderSlug = slug
 	} else {
@@ -266,9 +290,18 @@ func Project(s *sessions.SessionState, host string, now time.Time) Cookie {
 	if s.AccessToken == "at-new" {
 		tok = "new"
 	}
+	grp := "in"
+	if g := groupsOf(host); g != "" {
+		grp = "out"
+		for _, x := range s.Groups {
+			if x == g {
+				grp = "in"
+			}
+		}
+	}
 	return Cookie{Kind: "sess", SlugOk: s.ProviderSlug == slug, HostOk: s.AuthorizedUpstream == host,
 		Life: RemUnits(now, s.LifetimeDeadline), Ref: RemUnits(now, s.RefreshDeadline), Val: RemUnits(now, s.ValidDeadline),
-		Grace: GraceUnits(now, s.GracePeriodStart), Email: ClassifyEmail(s.Email), RT: s.RefreshToken != "", Tok: tok}
+		Grace: GraceUnits(now, s.GracePeriodStart), Email: ClassifyEmail(s.Email), RT: s.RefreshToken != "", Tok: tok, Grp: grp}
 }
 
 // garbage cookie values: the mutation classes of Sealed.tla applied to a genuine value.
